@@ -63,10 +63,17 @@ impl<T: Send> BoundedSyncSender<T> {
     }
   }
 
+  /// Carries a handle's closed flag across `to_sync`/`to_async`.
+  pub(crate) fn with_closed(self, closed: bool) -> Self {
+    self.closed.store(closed, Ordering::Relaxed);
+    self
+  }
+
   pub fn to_async(self) -> BoundedAsyncSender<T> {
+    let closed = self.closed.load(Ordering::Relaxed);
     let shared = unsafe { std::ptr::read(&self.shared) };
     mem::forget(self);
-    BoundedAsyncSender::from_shared(shared)
+    BoundedAsyncSender::from_shared(shared).with_closed(closed)
   }
 
   pub fn try_send(&self, item: T) -> Result<(), TrySendError<T>> {
@@ -372,10 +379,17 @@ impl<T: Send> BoundedSyncReceiver<T> {
     }
   }
 
+  /// Carries a handle's closed flag across `to_sync`/`to_async`.
+  pub(crate) fn with_closed(self, closed: bool) -> Self {
+    self.closed.store(closed, Ordering::Relaxed);
+    self
+  }
+
   pub fn to_async(self) -> BoundedAsyncReceiver<T> {
+    let closed = self.closed.load(Ordering::Relaxed);
     let shared = unsafe { std::ptr::read(&self.shared) };
     mem::forget(self);
-    BoundedAsyncReceiver::from_shared(shared)
+    BoundedAsyncReceiver::from_shared(shared).with_closed(closed)
   }
 
   pub fn try_recv(&self) -> Result<T, TryRecvError> {
